@@ -45,9 +45,12 @@ def base_config(rng, sc):
     sc.rule("lb", 'request.listener == "socks"')
     sc.rule("uquic", 'request.target.port == 4433')
     sc.rule("direct")
-    sc.cfg["timeouts"] = {"idle": rng.choice([1, 5, 600]), "udp": rng.choice([1, 5])}
-    sc.cfg["ioParams"] = {"bufferSize": rng.choice([1, 4096, 65536]), "useSplice": rng.choice([True, False])}
-    sc.cfg["metrics"]["historySize"] = rng.choice([0, 1, 100])
+    # legal boundary values belong to the *valid* configurations: 0 disables a timeout, historySize 0 keeps nothing ...
+    sc.cfg["timeouts"] = {"idle": rng.choice([0, 0, 1, 5, 600, 2 ** 32, 2 ** 63 - 1]), "udp": rng.choice([0, 1, 5, 2 ** 63 - 1])}
+    sc.cfg["ioParams"] = {"bufferSize": rng.choice([1, 2, 4096, 65536, 1 << 20]), "useSplice": rng.choice([True, False])}
+    sc.cfg["metrics"]["historySize"] = rng.choice([0, 1, 100, 2 ** 40])
+    sc.cfg["metrics"]["apiPrefix"] = rng.choice(["/api", "/api", "/x/y", "/"])
+    sc.cfg["metrics"]["cors"] = rng.choice(["*", "http://ui.sim"])
     if rng.random() < 0.5:
         sc.cfg["accessLog"] = {"path": "/sim/access.log", "format": {"script": "`${request.source} -> ${request.target} via ${request.connector}`"}}
     sc.add_origin(oaddr, default_ops=[op("sleep", ms=20), op("shutdown"), op("recv_eof", timeout_ms=5000, on_fail="continue")], oid="origin")
